@@ -95,6 +95,8 @@ def key(t):
     k = t.get("k")
     if k == "int":
         return t.get("v", "?")
+    if "cv" in t and k in ("bin", "un", "cast", "sizeof", "cond"):
+        return t["cv"]        # constant-folded by the compiler: (4 + 2 + 1) == 7
     if k == "cast":
         return key(t["x"])
     if k in ("var", "fn", "ref"):
